@@ -153,14 +153,18 @@ def run(ctx):
         else:
             ob3.instance("single write state", sw[0])
         # ---- C11.4 ----
-        off = v.single_comb_def(Sym("address_offset"))
-        ob4.instance("address_offset", key(off) if off is not None else None)
-        if off is None or key(off) != key(Op(">>", (Sym("base_address"), Const(2)))):
-            ob4.refute("offset", "address_offset is %s, expected base_address >> 2 for a 32-bit port" % (key(off) if off is not None else None), None)
+        # the offset may be a named wire or written out; compare with wires replaced by what they stand for
+        def nk(t_):
+            if isinstance(t_, Op):
+                return Op(t_.op, tuple(nk(a_) for a_ in t_.args))
+            d_ = deref(v, t_)
+            return nk(d_) if d_ is not t_ else t_
         direct = [l for l in v.fsm_leaves(f, f.reset_state) if l.kind == "assign" and key(l.target) == "port.cmd.addr"]
-        want = key(Op("-", (Sym("avalon.address"), Sym("address_offset"))))
-        la = want if want in latched_from else None
-        ob4.instance("addresses", {"direct": [key(l.value) for l in direct], "latched": la})
-        if not direct or key(direct[0].value) != want or la != want:
-            ob4.refute("address", "command address is %s (direct) / %s (latched), expected avalon.address - address_offset" % ([key(l.value) for l in direct], la), None)
+        want = key(Op("-", (Sym("avalon.address"), Op(">>", (Sym("base_address"), Const(2))))))
+        lat_addr = [l for l in lat if key(nk(l.value)) == want]
+        la = want if lat_addr else None
+        ob4.instance("direct command address", [key(nk(l.value)) for l in direct])
+        ob4.instance("latched command address", [str(l) for l in lat_addr])
+        if not direct or key(nk(direct[0].value)) != want or la != want:
+            ob4.refute("address", "command address is %s (direct) / %s (latched), expected avalon.address - (base_address >> 2) for a 32-bit port" % ([key(nk(l.value)) for l in direct], la), None)
     ctx.assume("stall interleavings and data values are not decided; the width-adjusting converter in front of the bridge is covered by C07")
